@@ -418,7 +418,12 @@ class Session:
         except exc.TemplateException as err:
             out['outcome'] = type(err).__name__
             return out
-        out['settings'] = {k: job.settings[k] for k in self.options}
+        # (a set-valued option is listed in sorted order: its str() would
+        # follow the interpreter's hash seed)
+        out['settings'] = {
+            k: (sorted(job.settings[k], key=str)
+                if isinstance(job.settings[k], (set, frozenset))
+                else job.settings[k]) for k in self.options}
         out['author_bypass'] = dict(job.author_bypass)
         fail = self.host_fail
         self.host_fail = None
